@@ -108,6 +108,15 @@ end
 def ownItems (text : String) : List Item :=
   (splitAndStrip text.toList).map fun r => classify comments (String.ofList r)
 
+/-- `_split_and_strip` as it was before fix e9aec0a: a text without a newline was one row, taken verbatim -/
+def splitAndStripOld (text : List Char) : List (List Char) :=
+  if text.contains '\n' then splitNl (strip (joinNl (dedentLines (splitNl text))))
+  else [text]
+
+/-- the classified lines of a yielded text under the old rule -/
+def ownItemsOld (text : String) : List Item :=
+  (splitAndStripOld text.toList).map fun r => classify comments (String.ofList r)
+
 /-- a block header must be one significant line starting at the block's column -/
 def headerOf (h : String) : Option String :=
   match ownItems h with
